@@ -63,6 +63,11 @@ NVERT = {"SEG": 2, "TRI": 3, "QUAD": 4, "TETRA": 4, "HEXA": 8, "PRISM": 6}
 # ------------------------------------------------------------------------------------------------
 def _cont_meshes(et, tier):
     m = list(CONT_MESHES)
+    if Z.proto(et).order >= 2:
+        # interior mid-side / face / volume nodes displaced (ZooMesh.curved): the Jacobian varies inside every element, the tiled
+        # domain is unchanged.  Rigid motions stay in the isoparametric space (zero strain at every quadrature point whatever the
+        # rule) and the mass rules integrate det J exactly for every type (checked: degree of det J <= degree of the mass rule).
+        m.append("curved")
     if tier == "thorough":
         m += ["mapped_grid"]
         t = Z.topo(et)
@@ -82,6 +87,8 @@ def cases(tier, seed):
         for et in types:
             factors = {"mesh": _cont_meshes(et, tier), "mat": mats, "thick": list(THICK), "rho": RHO}
             for c in deviations(factors, bound):
+                if c["mesh"] == "curved" and (c["rho"] == "relem" or c["mat"] == "khet"):
+                    continue  # per-element density / capacity needs the measure of each CURVED element; the total only needs the domain
                 out.append({"kind": "cont", "sim": sim, "elemType": et, **c})
     # same-order mixed meshes (two element groups): scalar density only
     for sim, pairs in (("elastic2d", Z.MIXED_2D), ("thermal2d", Z.MIXED_2D), ("elastic3d", Z.MIXED_3D), ("thermal3d", Z.MIXED_3D)):
@@ -417,6 +424,9 @@ def build_cont_mesh(et, letter):
     e0 = ets[0] if isinstance(ets, tuple) else ets
     d, t = Z.dim_of(e0), Z.topo(e0)
     base = letter
+    if letter == "curved":
+        zc = build_cont_mesh(et, "grid2")[0].curved()
+        return zc, zc.build()
     if letter == "mapped":
         base = "two"
     elif letter == "mapped_grid":
@@ -567,7 +577,7 @@ def _run_cont(case):
     if not ok_conn or not ok_used or Ne < 2:
         return _result([], "guard", "skipped", skipped="mesh not connected / orphan nodes / < 2 elements", nontrivial=False)
     # reference measures
-    meas = {g: elem_measures(zm.coords, con, g) for g, con in zm.groups.items()}
+    meas = {g: elem_measures(zm.coords, con, g) for g, con in zm.groups.items()}   # from the vertices: on the curved letter only the sum is meaningful
     total = float(sum(m.sum() for m in meas.values()))
     if "measure" in zm.exact:
         assert abs(total - zm.exact["measure"]) <= 1e-11 * zm.exact["measure"], \
